@@ -282,6 +282,9 @@ def gen_step(rng, fmt, dest_state, overwrite, fault, encoding, names, idx):
     step['prep'] = prep
     step['dest'] = name
     step['overwrite'] = overwrite if (overwrite or rng.chance(0.5)) else None
+    # other spellings of the flag: decided by truthiness, like a bool
+    step['overwrite_as'] = rng.weighted(
+        [('bool', 6), ('int', 1), ('numpy', 1), ('none', 1)])
     step['pathlib'] = rng.chance(0.25)
     step['label'] = label
     return step
@@ -434,7 +437,12 @@ class Run:
         regs = [build(r) for r in step['regions']]
         kw = {k: build(v) for k, v in step['kwargs'].items()}
         if step['overwrite'] is not None:
-            kw['overwrite'] = step['overwrite']
+            import numpy as np
+            how = step.get('overwrite_as', 'bool')
+            ow = bool(step['overwrite'])
+            kw['overwrite'] = {'bool': ow, 'int': int(ow),
+                               'numpy': np.bool_(ow),
+                               'none': True if ow else None}[how]
         if step['format'] is not None:
             kw['format'] = step['format']
         if step['api'] == 'Region':
